@@ -1694,7 +1694,14 @@ class Engine(object):
                 rs = [r for r in self.ev_seq([n.key, n.value], dry) if r.exc is None]
                 return ('tuple', tuple(rs[-1].val)) if rs else ('opaque', 'noelt')
             rs = [r for r in self.ev(n.elt, dry) if r.exc is None]
-            return rs[-1].val if rs else ('opaque', 'noelt')
+            if not rs:
+                return ('opaque', 'noelt')
+            vals = []
+            for r in rs:
+                if r.val not in vals:
+                    vals.append(r.val)
+            # an element computed by an inlined helper with several return paths (`return abspath(x)` / `return x`) is every one of them
+            return vals[0] if len(vals) == 1 else ('phi', tuple(vals))
         except AnalysisError:
             return ('opaque', 'noelt')
 
